@@ -75,6 +75,13 @@ impl Story {
         Story::pointer_at_path(&self.main_content_container, &path_to_choose)?;
         StoryState::values_from_arguments(args)?;
 
+        // A story that holds an undelivered error cannot run anything
+        if self.get_state().has_error() {
+            return Err(StoryError::InvalidStoryState(
+                "Can't evaluate a function while the story has an unhandled error.".to_owned(),
+            ));
+        }
+
         // The nested continue would check the external bindings only after the
         // evaluation frame has been pushed: check them while nothing is changed
         if !self.has_validated_externals {
